@@ -199,6 +199,42 @@ Proof.
   apply ds_holds_from; [exact AInv_init|now apply DInv_init|apply Rel_init|exact H|intros q []].
 Qed.
 
+(* ---- the state after any history; what GC leaves ------------------------------------------------------------ *)
+Lemma ds_run_rel ops : forall a s, AInv a -> DInv s -> Rel a s -> ds_ok (d_now s) ops = true ->
+  AInv (a_run a ops) /\ DInv (d_run s ops) /\ Rel (a_run a ops) (d_run s ops).
+Proof.
+  induction ops as [|o r IH]; intros a s HA HD HR Hok; [tauto|].
+  destruct (ds_ok_step _ _ _ Hok) as [Ho Hr]. pose proof (dstep_all a s o HA HD HR Ho) as St.
+  pose proof (a_step_now a o) as Hn. unfold dstep_ok in St. cbn [a_run d_run].
+  destruct (d_step s o) as [s' x]. destruct (a_step a o) as [a' e]. cbn [fst snd] in *.
+  destruct St as [HA' [HD' [HR' _]]]. apply IH; try assumption.
+  destruct HR' as [E _]. rewrite <- E, Hn. destruct HR as [E0 _]. now rewrite E0.
+Qed.
+
+Lemma ds_bounded_l cached look ops : 0 <= look -> ds_ok 0 ops = true ->
+  let s := d_run (d_init cached look) ops in
+  let a := a_run a_init ops in
+  (forall r e, In r (d_store (d_gc s)) -> In e (daddrs r) -> unix (d_now s) < dexp e) /\
+  d_stored (d_gc s) = zlen' (a_ents a) /\ d_nrecs (d_gc s) = zlen' (a_recs a) /\
+  (forall q, In q (d_peers (d_gc s)) <-> In q (a_peers a)).
+Proof.
+  intros Hl H. cbn zeta.
+  pose proof (run_sim ops _ _ (S_init cached look)) as HS. pose proof (gc_sim _ _ HS) as HG.
+  destruct HS as [_ [En [Es _]]]. destruct HG as [_ [_ [Eg _]]].
+  unfold d_stored, d_nrecs, d_peers. rewrite <- Eg, <- En.
+  set (s0 := d_run (d_init false look) ops).
+  destruct (ds_run_rel ops a_init (d_init false look) AInv_init (DInv_init look Hl) (Rel_init look) H) as [HA [HD HR]].
+  fold s0 in HD, HR. destruct (gc_spec s0 HD) as [[HD' Hn Hv Hsub] Hf].
+  assert (HR' : Rel (a_run a_init ops) (d_gc s0)).
+  { destruct HR as [Hna HRp]. split; [congruence|]. rewrite Hn. intros q. destruct (Hv q) as [E1 E2].
+    unfold prel. rewrite E1, E2. apply HRp. }
+  pose proof Hf as Hf'. rewrite <- Hn in Hf'.
+  destruct (fresh_counts _ (d_gc s0) HA HD' HR' Hf') as [C1 C2].
+  split; [|split; [exact C1|split; [exact C2|]]].
+  - intros r e Hr He. specialize (Hf r Hr e He). unfold lv in Hf. now apply Z.ltb_lt.
+  - intros q. split; [now apply (gc_peers _ s0 q HA HD HR)|now apply peers_sub_d].
+Qed.
+
 (* ---- the two stores give the same answers ---------------------------------------------------------------------------- *)
 (* same answer to every operation: equal values; Addrs as sets without repetition; GC: the same numbers of
    stored entries and signed records.  PeersWithAddrs: both list every peer that has a live address
